@@ -3,7 +3,7 @@
 # Confirms a seeded change in a scratch worktree of /repo (never /repo itself):
 #   patch applies; go build + full test suite pass with it; the demonstration fails with it
 #   and passes without it.  Demo conventions: demo/*_test.go (dropped into the package its
-#   `package` clause names) or demo/main.go (exit status 0 = property holds).
+#   `package` clause names), demo/main.go, or demo/run.sh <tree> (exit status 0 = property holds).
 # Prints: applies=… suite=… demo_with=… demo_without=…
 set -u
 wt="$1"; sd="$2"
@@ -45,6 +45,12 @@ run_demo() {
     go run ./zz_seed_demo >/tmp/seedconfirm.$$ 2>&1 || rc=1
     tail -5 /tmp/seedconfirm.$$ | sed 's/^/      /' >&2
     rm -rf zz_seed_demo /tmp/seedconfirm.$$
+    return $rc
+  fi
+  if [ -f "$sd/demo/run.sh" ]; then
+    sh "$sd/demo/run.sh" "$wt" >/tmp/seedconfirm.$$ 2>&1 || rc=1
+    tail -3 /tmp/seedconfirm.$$ | sed 's/^/      /' >&2
+    rm -f /tmp/seedconfirm.$$
     return $rc
   fi
   echo "no demo recognised" >&2; return 3
